@@ -219,32 +219,57 @@ def check_convert(rep: Report, prog: Program) -> None:
             return True
         return any(isinstance(x, ast.Attribute) and x.attr == "magnitude" for ex in exprs for x in ast.walk(ex))
     n_updates = 0
-    for acc in accs:
-        for n in ast.walk(fn):
-            if isinstance(n, ast.Assign) and any(isinstance(t, ast.Name) and t.id == acc for t in n.targets):
-                v = n.value
-                key = f"conversions.convert:{ast.unparse(n)[:60]}"
-                if isinstance(v, ast.Attribute) and v.attr == "magnitude":
-                    rep.ok("R05.2", key, note="initial value")
-                    continue
-                if applier.qual != "conversions.convert" and isinstance(v, ast.Name) and v.id == acc:
-                    continue
-                coef = None
-                if isinstance(v, ast.Call) and isinstance(v.func, ast.Name) and v.func.id in ("_mul", "_add") and len(v.args) == 2:
-                    a0, a1 = v.args
-                    if isinstance(a0, ast.Name) and a0.id == acc:
-                        coef = a1
-                    elif isinstance(a1, ast.Name) and a1.id == acc:
-                        coef = a0
-                elif isinstance(v, ast.BinOp) and isinstance(v.op, (ast.Mult, ast.Add)):
-                    if isinstance(v.left, ast.Name) and v.left.id == acc:
-                        coef = v.right
-                    elif isinstance(v.right, ast.Name) and v.right.id == acc:
-                        coef = v.left
-                n_updates += 1
-                rep.check("R05.2", key, coef is not None and not depends_on_magnitude(coef),
-                          f"`{ast.unparse(n)}` is not an affine update magnitude*c / magnitude+c with c independent of the "
-                          "magnitude: conversion would not be a linear scaling for fixed units", fi.where(n))
+    # the accumulator family: names that carry the running magnitude - the returned name(s) and any temporary
+    # that is one affine step away from a member (`scaled = _mul(magnitude, c); magnitude = _add(scaled, o)`)
+    def affine_parts(v: ast.AST) -> Optional[Tuple[ast.AST, ast.AST]]:
+        if isinstance(v, ast.Call) and isinstance(v.func, ast.Name) and v.func.id in ("_mul", "_add") and len(v.args) == 2:
+            return v.args[0], v.args[1]
+        if isinstance(v, ast.BinOp) and isinstance(v.op, (ast.Mult, ast.Add)):
+            return v.left, v.right
+        return None
+    assigns = [n for n in ast.walk(fn) if isinstance(n, ast.Assign) and len(n.targets) == 1 and isinstance(n.targets[0], ast.Name)]
+    family: Set[str] = set(accs)
+    changed = True
+    while changed:
+        changed = False
+        for n in assigns:
+            t = n.targets[0].id  # type: ignore[attr-defined]
+            parts = affine_parts(n.value)
+            srcs = {x.id for x in parts if isinstance(x, ast.Name)} if parts else ({n.value.id} if isinstance(n.value, ast.Name) else set())
+            if t in family and srcs - family:
+                new_members = {x for x in srcs if any(a.targets[0].id == x and (affine_parts(a.value) or isinstance(a.value, (ast.Name, ast.Attribute)))  # type: ignore[attr-defined]
+                                                    for a in assigns)}
+                # only temporaries that are themselves built from the family join it
+                for x in new_members:
+                    for a in assigns:
+                        if a.targets[0].id == x:  # type: ignore[attr-defined]
+                            p2 = affine_parts(a.value)
+                            if p2 and any(isinstance(y, ast.Name) and y.id in family for y in p2) and x not in family:
+                                family.add(x)
+                                changed = True
+    for n in assigns:
+        acc = n.targets[0].id  # type: ignore[attr-defined]
+        if acc not in family:
+            continue
+        v = n.value
+        key = f"conversions.convert:{ast.unparse(n)[:60]}"
+        if isinstance(v, ast.Attribute) and v.attr == "magnitude":
+            rep.ok("R05.2", key, note="initial value")
+            continue
+        if isinstance(v, ast.Name) and v.id in family:
+            continue
+        coef = None
+        parts = affine_parts(v)
+        if parts:
+            a0, a1 = parts
+            if isinstance(a0, ast.Name) and a0.id in family:
+                coef = a1
+            elif isinstance(a1, ast.Name) and a1.id in family:
+                coef = a0
+        n_updates += 1
+        rep.check("R05.2", key, coef is not None and not depends_on_magnitude(coef),
+                  f"`{ast.unparse(n)}` is not an affine update magnitude*c / magnitude+c with c independent of the "
+                  "magnitude: conversion would not be a linear scaling for fixed units", fi.where(n))
     if n_updates < 2:
         raise AnalysisError(f"{fi.qual}: fewer than two affine updates of the accumulated magnitude found")
     for n in ast.walk(fn):
